@@ -103,7 +103,7 @@ template <int OP> void s_widen(Ctx& c) {
     switch (OP) {
     case BHZ03: large.BHZ03_widening_assign<BHRZ03_Certificate>(small, widen_fun_ref(&Polyhedron::H79_widening_assign)); break;
     case BGP99: large.BGP99_extrapolation_assign(small, widen_fun_ref(&Polyhedron::H79_widening_assign), 3); break;
-    case PAIRWISE_WID: large.pairwise_apply_assign(small, Pointset_Powerset<C_Polyhedron>::lift_op_assign(std::mem_fn(&C_Polyhedron::intersection_assign))); break;
+    default: break;
     }
     large.omega_reduce();
   });
@@ -190,12 +190,13 @@ SCENARIO("Pointset_Powerset<C_Polyhedron>.maximize_relation") { int n = rdim(); 
   c.result([&] { return val(ps) + r.str(); }); POSTS("ps", ps); }
 
 // ---------------------------------------------------------------- rejected calls (Pointset_Powerset_defs.hh)
-#define REJP(op, cls, expected, stmt) REJECT("Pointset_Powerset<C_Polyhedron>", op, cls) { Variable x(0), y(1), z(2); (void) x; (void) y; (void) z; \
-    PS ps = rps(2), qs = rps(3); PS ps0(ps), qs0(qs); r.call(expected, [&] { stmt; }); \
+#define REJP2(op, cls, expected, prep, stmt) REJECT("Pointset_Powerset<C_Polyhedron>", op, cls) { Variable x(0), y(1), z(2); (void) x; (void) y; (void) z; \
+    PS ps = rps(2), qs = rps(3); prep; PS ps0(ps), qs0(qs); r.call(expected, [&] { stmt; }); \
     r.unchanged("receiver", ps, ps0, EQ, [](const PS& a) { return val(a); }); r.unchanged("argument", qs, qs0, EQ, [](const PS& a) { return val(a); }); }
+#define REJP(op, cls, expected, stmt) REJP2(op, cls, expected, (void) 0, stmt)
 REJP("add_disjunct", "dim_mismatch", "invalid_argument", C_Polyhedron p(3); ps.add_disjunct(p))
 REJP("add_constraint", "dim_too_large", "invalid_argument", ps.add_constraint(z >= 0))
-REJP("add_constraint", "strict_on_closed", "invalid_argument", ps.add_disjunct(C_Polyhedron(2)); ps.add_constraint(x > 0))
+REJP2("add_constraint", "strict_on_closed", "invalid_argument", ps.add_disjunct(C_Polyhedron(2)), ps.add_constraint(x > 0))
 REJP("add_constraints", "dim_too_large", "invalid_argument", Constraint_System cs; cs.insert(z >= 0); ps.add_constraints(cs))
 REJP("refine_with_constraint", "dim_too_large", "invalid_argument", ps.refine_with_constraint(z >= 0))
 REJP("add_congruence", "dim_too_large", "invalid_argument", ps.add_congruence((z %= 0) / 0))
@@ -207,11 +208,11 @@ REJP("simplify_using_context_assign", "dim_mismatch", "invalid_argument", (void)
 REJP("contains", "dim_mismatch", "invalid_argument", (void) ps.contains(qs))
 REJP("is_disjoint_from", "dim_mismatch", "invalid_argument", (void) ps.is_disjoint_from(qs))
 REJP("geometrically_covers", "dim_mismatch", "invalid_argument", (void) ps.geometrically_covers(qs))
-REJP("affine_image", "zero_denominator", "invalid_argument", ps.add_disjunct(C_Polyhedron(2)); ps.affine_image(x, y + 1, 0))
-REJP("affine_image", "var_dim_too_large", "invalid_argument", ps.add_disjunct(C_Polyhedron(2)); ps.affine_image(z, y + 1, 1))
-REJP("affine_preimage", "expr_dim_too_large", "invalid_argument", ps.add_disjunct(C_Polyhedron(2)); ps.affine_preimage(x, z + 1, 1))
-REJP("generalized_affine_image", "zero_denominator", "invalid_argument", ps.add_disjunct(C_Polyhedron(2)); ps.generalized_affine_image(x, EQUAL, y + 1, 0))
-REJP("bounded_affine_image", "zero_denominator", "invalid_argument", ps.add_disjunct(C_Polyhedron(2)); ps.bounded_affine_image(x, y, y + 1, 0))
+REJP2("affine_image", "zero_denominator", "invalid_argument", ps.add_disjunct(C_Polyhedron(2)), ps.affine_image(x, y + 1, 0))
+REJP2("affine_image", "var_dim_too_large", "invalid_argument", ps.add_disjunct(C_Polyhedron(2)), ps.affine_image(z, y + 1, 1))
+REJP2("affine_preimage", "expr_dim_too_large", "invalid_argument", ps.add_disjunct(C_Polyhedron(2)), ps.affine_preimage(x, z + 1, 1))
+REJP2("generalized_affine_image", "zero_denominator", "invalid_argument", ps.add_disjunct(C_Polyhedron(2)), ps.generalized_affine_image(x, EQUAL, y + 1, 0))
+REJP2("bounded_affine_image", "zero_denominator", "invalid_argument", ps.add_disjunct(C_Polyhedron(2)), ps.bounded_affine_image(x, y, y + 1, 0))
 REJP("unconstrain", "dim_too_large", "invalid_argument", ps.unconstrain(z))
 REJP("remove_space_dimensions", "dim_too_large", "invalid_argument", Variables_Set vs; vs.insert(z); ps.remove_space_dimensions(vs))
 REJP("remove_higher_space_dimensions", "dim_too_large", "invalid_argument", ps.remove_higher_space_dimensions(5))
